@@ -183,6 +183,12 @@ func init() {
 						hv2 = hv
 					}
 					cs = append(cs, apiCase(strings.Join(toks, " "), hv2, "mutated-program"))
+					if i%12 == 2 {
+						// line breaks around and inside an otherwise valid program
+						for _, v := range []string{src + "\n", src + "\r\n", "\n" + src, strings.Replace(src, " ", "\n", 1), src + "\n\n", src + " \t"} {
+							cs = append(cs, apiCase(v, []int{2, 4}[r.Intn(2)], "valid-with-linebreaks"))
+						}
+					}
 				}
 			}
 			// nests and chains
